@@ -359,6 +359,8 @@ def genGames (seed n maxLen : Nat) : List String := Id.run do
     let (startCoin, r0) := r.below 3
     let (root, r1) := if startCoin == 0 then (startBoard, r0) else r0.pick rootBoards
     let (root, r1) := skewClocks root r1
+    -- keep the whole line inside the 12-bit undo field of the half-move clock (property C03 bounds it by 4095)
+    let root := { root with halfmove := min root.halfmove (4095 - maxLen - 64) }
     let (len, r2) := r1.below (maxLen + 1)
     let (steps, _, r3) := playout len root r2 []
     r := r3
